@@ -2,7 +2,7 @@
    Only ExtrOcamlBasic is used: bool, option, unit, list, prod, sumbool, sumor map to OCaml's;
    andb/orb are inlined.  N, positive, nat, byte, comparison stay Coq inductives. *)
 From Coq Require Extraction ExtrOcamlBasic.
-From RsdnsModel Require Import Base GenConst GenCursor GenLabels GenNames GenHeader Cursor Names Labels Header Tracker RData Reader Script Iter RecordSet Writer Client Timed.
+From RsdnsModel Require Import Base GenConst GenCursor GenLabels GenNames GenHeader Cursor Names Labels Header Tracker RData Reader Script Iter RecordSet Writer Client Timed TimedApi.
 From RsdnsModel.Spec Require WireName NameText LinearPass.
 Extraction Language OCaml.
 Extraction "model.ml"
@@ -12,5 +12,5 @@ Extraction "model.ml"
   Names.name_hash_feed Names.name_eq_str
   Labels.read_name Labels.skip_name Labels.labels_drain Labels.nameref_eq Labels.name_fuel Script.world_init Script.run_script Script.step GenHeader.opt_dnssec_ok GenHeader.flag_qr GenHeader.flag_opcode GenHeader.flag_aa GenHeader.flag_tc GenHeader.flag_rd GenHeader.flag_ra GenHeader.flag_rcode N.div N.modulo Iter.iter_new Iter.iter_questions Iter.iter_records RecordSet.from_msg Writer.write_name Writer.query_write Writer.prepare_message Names.append_label_bytes
   Client.accept_datagram Client.udp_receive Client.tcp_exchange Client.query_raw_impl Client.client_query
-  Timed.client_query_timed Timed.udp_history Timed.exchange_fuel
+  Timed.client_query_timed Timed.udp_history Timed.exchange_fuel TimedApi.client_call_timed TimedApi.client_rrset_timed
   WireName.spec_name WireName.label_ok WireName.join_labels WireName.wire_len NameText.valid_text NameText.canon_text NameText.text_labels LinearPass.linear_of LinearPass.astep LinearPass.a_init.
